@@ -398,6 +398,7 @@ def check(prop, tier):
         except OSError:
             pass
     violations = []     # (replay path, description)
+    stage_of = {}       # replay path -> stage that produced it (written next to the replay file as <case>.stage)
     notes = []
     selftest_fail = []
     merged_all = {"evaluations": 0, "distinct_nontrivial": 0, "by_kind": {}, "labels": {}, "counters": {},
@@ -482,6 +483,7 @@ def check(prop, tier):
                     continue
                 seen_sigs.add(v[2])
                 violations.append((v[1], v[2]))
+                stage_of[v[1]] = st["name"]
             # generator self-test (coverage floors), measured on the generated cases
             for lab, floor in st.get("label_floors", {}).items():
                 if m["labels"].get(lab, 0) < floor:
@@ -527,6 +529,9 @@ def check(prop, tier):
                 shutil.copy(path, dst)
                 if os.path.exists(path + ".json"):
                     shutil.copy(path + ".json", dst + ".json")
+                if path in stage_of:
+                    with open(dst + ".stage", "w") as f:
+                        f.write(stage_of[path] + "\n")
                 with open(dst + ".txt", "w") as f:
                     f.write(desc + "\n")
             print("VIOLATION property=%s replay=%s  # %s" % (prop, dst, desc[:300]))
